@@ -298,6 +298,8 @@ type Report struct {
 	Extra       map[string]interface{}
 	start       time.Time
 	prog        *Program
+	NoWrite     bool
+	Broken      []string
 }
 
 func newReport(prop, level, tier string, prog *Program) *Report {
@@ -408,13 +410,16 @@ func (r *Report) Finish(verifDir string, seed int64) int {
 			broken = append(broken, fmt.Sprintf("rule %s matched %d instances, floor is %d", rule, n, floor))
 		}
 	}
+	broken = append(broken, r.Broken...)
 	sort.Strings(broken)
 
 	evDir := filepath.Join(verifDir, "evidence")
 	vioDir := filepath.Join(evDir, "violations")
-	_ = os.MkdirAll(vioDir, 0o755)
+	if !r.NoWrite {
+		_ = os.MkdirAll(vioDir, 0o755)
+	}
 	// remove stale replay files of this property
-	if old, _ := filepath.Glob(filepath.Join(vioDir, r.Prop+"-*.json")); old != nil {
+	if old, _ := filepath.Glob(filepath.Join(vioDir, r.Prop+"-*.json")); old != nil && !r.NoWrite {
 		for _, f := range old {
 			_ = os.Remove(f)
 		}
@@ -477,9 +482,11 @@ func (r *Report) Finish(verifDir string, seed int64) int {
 		ev["assumptions"] = []string{}
 	}
 	b, _ := json.MarshalIndent(ev, "", " ")
-	if err := os.WriteFile(filepath.Join(evDir, r.Prop+".json"), b, 0o644); err != nil {
-		fmt.Printf("ERROR cannot write evidence: %v\n", err)
-		return 2
+	if !r.NoWrite {
+		if err := os.WriteFile(filepath.Join(evDir, r.Prop+".json"), b, 0o644); err != nil {
+			fmt.Printf("ERROR cannot write evidence: %v\n", err)
+			return 2
+		}
 	}
 
 	fmt.Printf("%s tier=%s repo=%s arch=%s: %d obligations, %d discharged, %d known findings, %d violations (%.1fs)\n",
@@ -503,7 +510,9 @@ func (r *Report) Finish(verifDir string, seed int64) int {
 			"redecide": fmt.Sprintf("./check %s --tier %s   # re-decides every obligation of the property; look for key %q", r.Prop, r.Tier, o.Key),
 		}
 		jb, _ := json.MarshalIndent(doc, "", " ")
-		_ = os.WriteFile(path, jb, 0o644)
+		if !r.NoWrite {
+			_ = os.WriteFile(path, jb, 0o644)
+		}
 		fmt.Printf("  FAIL %s at %s: %s\n", o.Key, o.Pos, o.Detail)
 		fmt.Printf("VIOLATION property=%s replay=%s\n", r.Prop, path)
 	}
